@@ -106,3 +106,33 @@ AUTOSQL_LOOPS = Ob("C19-M1", "R-TERM", "all loops of autosql.rs terminate; token
 CHROM_ORDER = Ob("C13-G8", "R-PRED", "chromosome-order refusal (serial: !allow && prev >= next; parallel: !allow && cur > next), empty input refused, foreign record in a slice refused", RF.ob_chrom_order, floor=4)
 PARSE_ERRORS = Ob("C13-G9", "R-ERR", "parse_bed / parse_bedgraph / BedFileStream::next turn every missing or unparsable column into Some(Err)", RF.ob_parse_errors, floor=3)
 INPUT_PANICS = Ob("C13-P1", "R-PANIC", "no unwrap/expect on a value parsed from the data input in the converter CLIs, sources and parsers", RF.ob_input_panics)
+
+from ..obs import mergefill as MF, cli as CL, slicing as SL, autosqlobs as AQ, pyarrays as PA
+
+MERGE_QUERY = Ob("C15-F1", "R-FLOW", "bigwigmerge queries every input over (chrom, 0, agreed size); disagreeing sizes refused", MF.ob_merge_query, floor=3)
+LOWERCASE = Ob("C15-T1", "R-TABLE", "every literal compared with a lower-cased string is itself lower case (repo-wide)", MF.ob_lowercase)
+OUTPUT_TYPE = Ob("C15-T2", "R-TABLE", "bigwigmerge output type table (endings, --output-type), both outputs consume the same merged iterator, bedGraph line format", MF.ob_output_type, floor=3)
+TRANSFORM = Ob("C15-F2", "R-FLOW", "merged value transform: clip -> + adjust -> keep iff > threshold, applied once per data path (chunked partial merges neutral)", MF.ob_transform, floor=4)
+MERGE_INTO = Ob("C15-C1", "R-CASES", "merge_into: exhaustive case analysis over order types x zero flags (pieces sorted, contiguous, cover the union, value = sum of covering inputs)", MF.ob_merge_into_cases)
+FILL = Ob("C15-G1", "R-FLOW", "FillValues::next: fillers are {last_end, next.start, 0.0} only in gaps; inputs pass unchanged; trailing filler to expected_end", MF.ob_fill)
+COMPAT = Ob("C16-T1", "R-TABLE", "UCSC spellings -unc/-blockSize/-chrom/-start/-end are rewritten (no shadowing) to long flags that the converter commands declare", CL.ob_compat_table, floor=5)
+OPTION_FLOW = Ob("C16-F1", "R-FLOW", "converter CLIs: flags reach the like-named write options; -t 1 -> current-thread runtime + channel 0; 4 source/pass arms consistent", CL.ob_option_flow, floor=2)
+RESTRICT = Ob("C16-F2", "R-FLOW", "restricted output: start/end only with chrom; serial writer receives (chrom,start,end); query (name, start|0, end|length)", CL.ob_restrict, floor=4)
+NAME_TABLE = Ob("C17-T1", "R-TABLE", "name column table (0/1/2/k>=3, interval, none) and --namecol parsing (1-based, default 4)", CL.ob_name_table, floor=2)
+AVG_SIBS = Ob("C17-S1", "R-SIB", "threaded process_chunk vs serial loop: same calls, same row formats and argument lists", CL.ob_avg_siblings)
+AVG_REASM = Ob("C17-D1", "R-DISC", "chunk results queued and drained FIFO, each fully copied before the next; workers read exactly their chunk's byte range", CL.ob_avg_reassembly, floor=2)
+VALUES_OVER_BED = Ob("C17-F1", "R-FLOW", "bigwigvaluesoverbed: per region end-start slots, slot i-start <- value covering base i", CL.ob_values_over_bed)
+FV_SEEK = Ob("C18-B1", "R-BOUND", "FileView::seek: every arm positions the file within [start,end] (exhaustive over order types) with identical epilogues", SL.ob_fileview_seek, floor=4)
+FV_READ = Ob("C18-B4", "R-BOUND", "FileView::read truncates to end-current and advances by the bytes read; new() clamps end and positions at start", SL.ob_fileview_read, floor=2)
+CHUNKER = Ob("C18-F1", "R-FLOW", "split_file_into_chunks_by_size: chunks start at 0, end after a full line, are contiguous, cover the file", SL.ob_chunker)
+VIEWS = Ob("C18-F2", "R-FLOW", "parallel source: each chromosome reads FileView[index[i].offset, index[i+1].offset | EOF)", SL.ob_views)
+GROUPING = Ob("C18-G1", "R-FLOW", "index_chroms: adjacent duplicates collapsed; ungrouped file detected by sorting a copy BY NAME and comparing lengths", SL.ob_index_grouping)
+GEN_COUNT = Ob("C19-T1", "R-TABLE", "bed_autosql declares 3 + e fields for every e (FIELDS table, two loops, one declaration per iteration)", AQ.ob_generated_count)
+SCHEMA_FLOW = Ob("C19-F1", "R-FLOW", "schema flow: generated from the first line's rest or file verbatim; library default BED3; fieldCount from the parsed declaration", AQ.ob_schema_flow, floor=3)
+GEN_TOKENS = Ob("C19-G1", "R-TABLE", "every field type the generator emits is an arm of FieldType::try_parse; sized form parsed", AQ.ob_generator_tokens)
+SLICES = Ob("C19-P1", "R-PANIC", "autosql parser slices the input only at its cursors; cursors only take char boundaries; no unwrap on input-derived options", AQ.ob_slice_provenance)
+MISSING_TAINT = Ob("C20-F1", "R-FLOW", "`missing` flows only to output fill, unwrap_or defaults, NaN replacement, output allocation (never a scratch accumulator)", PA.ob_missing_taint)
+DIV_GUARDS = Ob("C20-N1", "R-ORDER", "every mean division by a covered-base count in the four bin routines is guarded by count > 0", PA.ob_division_guards, floor=8)
+BIN_SIBS = Ob("C20-S1", "R-SIB", "bin routines: bins/zoom siblings share bookkeeping; in-loop and final flush blocks identical", PA.ob_bin_siblings, floor=2)
+DRIVERS = Ob("C20-F2", "R-FLOW", "drivers: clamped query range, oob bins after data fill, bigWig/bigBed drivers identical", PA.ob_drivers, floor=3)
+PER_BASE = Ob("C20-A1", "R-STAT", "per-base routines: NaN-seeded, value / +1 per covering entry, NaN -> missing", PA.ob_per_base, floor=2)
